@@ -340,9 +340,13 @@ def run_enc_scenario(idx, sc):
 
 LEGACY = [("utf-8", "utf-8", b""), ("utf-8", "utf-8", b"\xef\xbb\xbf"), ("utf-16le", "utf-16-le", b"\xff\xfe"), ("utf-16be", "utf-16-be", b"\xfe\xff"),
           ("utf-16le", "utf-16-le", b""), ("utf-16be", "utf-16-be", b""), ("windows-1252", "cp1252", b""), ("windows-1251", "cp1251", b""),
-          ("shift_jis", "shift_jis", b""), ("gbk", "gbk", b""), ("euc-kr", "euc_kr", b""), ("big5", "big5", b""), ("iso-8859-2", "iso8859_2", b"")]
+          ("shift_jis", "shift_jis", b""), ("gbk", "gbk", b""), ("euc-kr", "euc_kr", b""), ("big5", "big5", b""), ("iso-8859-2", "iso8859_2", b""),
+          # a stateful encoding (escape sequences switch character sets), and a few more families
+          ("iso-2022-jp", "iso2022_jp", b""), ("euc-jp", "euc_jp", b""), ("gb18030", "gb18030", b""), ("koi8-r", "koi8_r", b""), ("ibm866", "cp866", b""),
+          ("windows-1250", "cp1250", b""), ("windows-1253", "cp1253", b""), ("windows-1257", "cp1257", b"")]
 SAMPLE_WORDS = {"cp1252": "Größe café", "cp1251": "Привет мир", "shift_jis": "日本語テキスト", "gbk": "中文文本", "euc_kr": "한국어", "big5": "繁體中文",
-                "iso8859_2": "Łódź żółć", "utf-8": "Größe 日本語 😃 Привет", "utf-16-le": "Größe 日本語 😃", "utf-16-be": "Größe 😃 한국어"}
+                "iso8859_2": "Łódź żółć", "iso2022_jp": "日本語テキスト", "euc_jp": "日本語テキスト", "gb18030": "中文文本", "koi8_r": "Привет мир", "cp866": "Привет мир",
+                "cp1250": "Łódź žluťoučký", "cp1253": "Ελληνικά κείμενο", "cp1257": "Ąžuolas šešėlis", "utf-8": "Größe 日本語 😃 Привет", "utf-16-le": "Größe 日本語 😃", "utf-16-be": "Größe 😃 한국어"}
 
 
 def run_legacy_scenario(idx, sc):
@@ -369,7 +373,17 @@ def run_legacy_scenario(idx, sc):
         if rc != 0:
             problems.append({"clause": "round_trip", "detail": f"exit status {rc} ({what}): {err[-200:].decode(errors='replace')}"})
         elif now != exp:
-            problems.append({"clause": "round_trip", "detail": f"bytes written differ from BOM + encode(format(decode(input))) ({what})"})
+            at = next((i for i in range(min(len(now), len(exp))) if now[i] != exp[i]), min(len(now), len(exp)))
+            problems.append({"clause": "round_trip", "detail": f"bytes written differ from BOM + encode(format(decode(input))) at byte {at} of {len(exp)} ({what})"})
+        else:
+            # what was written is well-formed in the same encoding: the next run reads it and has nothing to do
+            rc3, out3, err3 = run_bin(["-C", f"encoding={option}", "--mode", "check", p], root)
+            if rc3 != 0:
+                problems.append({"clause": "round_trip", "detail": f"the file just written is rejected by --mode=check ({what}): {err3[-200:].decode(errors='replace')}"})
+        # the piped path
+        rc2, out2, err2 = run_bin(["-C", f"encoding={option}"], root, stdin=inp)
+        if rc2 != 0 or out2 != exp:
+            problems.append({"clause": "round_trip", "detail": f"stdin->stdout: exit status {rc2}, {len(out2)} bytes, expected {len(exp)} bytes = BOM + encode(format(decode(input))) ({what})"})
         return problems, False
     finally:
         shutil.rmtree(root, ignore_errors=True)
